@@ -292,10 +292,15 @@ class Settings(MutableMapping):
         del self._settings[key]
 
     def __iter__(self):
-        return self._settings.__iter__()
+        # A setting that has no current value yet (it was set but is not yet
+        # acknowledged) raises KeyError from __getitem__, so it is not one of
+        # the mapping's keys either.
+        return iter(
+            [k for k, v in self._settings.items() if v[0] is not None]
+        )
 
     def __len__(self):
-        return len(self._settings)
+        return sum(1 for v in self._settings.values() if v[0] is not None)
 
     def __eq__(self, other):
         if isinstance(other, Settings):
